@@ -240,7 +240,7 @@ def _g2(ctx: Context) -> None:
         ccfg = ctx.cfg(cl.qualname)
         crs = [n for n in ccfg.nodes if n.kind == "return" and n.exprs]
         ss = call(der, ("add", (pub, sid)), const(hap.RESUME_SHARED_SECRET_INFO))
-        oks = len(crs) == 1 and strip_sites(T.of(ccfg, crs[0], crs[0].exprs[0])) == call(glob(pp.HKDF), ss, ("param", cl.pos_params[0]), ("param", cl.pos_params[1]), kw=(("length", ("param", cl.pos_params[2])),))
+        oks = len(crs) == 1 and strip_sites(T.of(ccfg, crs[0], crs[0].exprs[0])) == call(glob(pp.HKDF), ss, ("param", cl.pos_params[0]), ("param", cl.pos_params[1]), ("param", cl.pos_params[2]))
     ck.check("C01.G2", oks, "resume: new keys derive from derive(pub_key | session_id, Pair-Resume-Shared-Secret-Info)", f"{ctx.fkey(g)}:resume-secret",
              "resume_m3 does not return (session id, HKDF closure over the resumed shared secret)", g.loc())
 
@@ -378,12 +378,12 @@ def _k1(ctx: Context) -> None:
     ccfg = ctx.cfg(cl.qualname)
     crs = [n for n in ccfg.nodes if n.kind == "return" and n.exprs]
     okc = len(crs) == 1 and strip_sites(T.of(ccfg, crs[0], crs[0].exprs[0])) == call(
-        glob(pp.HKDF), shared, ("param", cl.pos_params[0]), ("param", cl.pos_params[1]), kw=(("length", ("param", cl.pos_params[2])),))
+        glob(pp.HKDF), shared, ("param", cl.pos_params[0]), ("param", cl.pos_params[1]), ("param", cl.pos_params[2]))
     ck.check("C01.K1", okc, "returned derive(salt, info, length) = hkdf_derive(X25519 shared secret of THIS exchange, salt, info, length)", f"{ctx.fkey(cl)}:closure",
              "get_session_keys: the returned derivation closure is not HKDF over this exchange's X25519 shared secret", cl.loc())
     sid = strip_sites(rt[1][0])
-    want_sid = call(("closure", cl.qualname), const(hap.HKDF_LABELS["resume-session-id"][0]), const(hap.HKDF_LABELS["resume-session-id"][1]), kw=(("length", const(8)),))
-    inl = call(glob(pp.HKDF), shared, const(hap.HKDF_LABELS["resume-session-id"][0]), const(hap.HKDF_LABELS["resume-session-id"][1]), kw=(("length", const(8)),))
+    want_sid = call(("closure", cl.qualname), const(hap.HKDF_LABELS["resume-session-id"][0]), const(hap.HKDF_LABELS["resume-session-id"][1]), const(8))
+    inl = call(glob(pp.HKDF), shared, const(hap.HKDF_LABELS["resume-session-id"][0]), const(hap.HKDF_LABELS["resume-session-id"][1]), const(8))
     ck.check("C01.K1", sid in (want_sid, inl), "session id = derive(Pair-Verify-ResumeSessionID-Salt/Info, 8 bytes) of the same secret", f"{ctx.fkey(f)}:session-id",
              f"get_session_keys: the resume session id is {show(sid, 200)}", ctx.loc(f, full))
     # shared secret and session key terms appear where expected (decrypt key) - checked in T1; nonce table
